@@ -300,9 +300,10 @@ def search_layout_witness():
                                        calls=['ymaxs.append'], returns=['ymins', 'ymaxs'], closure=True, closure_exclude=())
     except slicer.AnchorMissing:
         return None
-    for H in (101, 64, 33, 16):
-        for cores in (2, 3):
-            for ns in (cores, cores + 1, 2 * cores):
+    cands = [(H, cores, ns, st) for H in (101, 64, 33, 16) for cores in (2, 3) for ns in (cores, cores + 1, 2 * cores) for st in (4,)]
+    cands += [(H, cores, ns, st) for st in (1, 2, 3, 4, 8) for cores in (1, 2, 3) for ns in range(1, 13) for H in range(8, 131)]
+    for H, cores, ns, st in cands:
+            if True:
                 rec = Rec()
 
                 class MP:
@@ -315,11 +316,11 @@ def search_layout_witness():
                 g2.update(multiprocessing=MP, sys=Sys, init=None, memory_id='m', logging=loader.NullLog())
                 f = fac(g2)
                 try:
-                    ymins, ymaxs = f(cores, ns, (H, 16), (4, 4))
+                    ymins, ymaxs = f(cores, ns, (H, 16), (st, st))
                 except Exception:
                     continue
                 if rec.pool and rec.barrier and rec.pool[1].get('processes', 0) < rec.barrier[1].get('parties', 0):
-                    return dict(kind='layout', H=H, nslice=ns, cores=cores, step=4)
+                    return dict(kind='layout', H=H, nslice=ns, cores=cores, step=st)
     return None
 
 
